@@ -144,3 +144,284 @@ Proof.
   intros s w H. rewrite parse_directives_exact in H. apply filter_In in H. destruct H as [H1 H2].
   split; [exact H1|]. unfold nonempty in H2. intros ->. discriminate.
 Qed.
+
+(* ------------------------------------------------------------------ collectSnippetsFilterDirectives *)
+
+Lemma dkey_eqb_eq : forall a b, dkey_eqb a b = true <-> a = b.
+Proof.
+  intros [a1 a2] [b1 b2]. unfold dkey_eqb; simpl. rewrite andb_true_iff, !String.eqb_eq.
+  split; [intros [-> ->]; reflexivity | intros H; inversion H; auto].
+Qed.
+
+Lemma bump_keys : forall k m x, In x (map fst (bump k m)) <-> x = k \/ In x (map fst m).
+Proof.
+  intros k m x. induction m as [|[k' n] m IH]; simpl.
+  - intuition.
+  - destruct (dkey_eqb k k') eqn:E; simpl.
+    + apply dkey_eqb_eq in E. subst k'. intuition.
+    + rewrite IH. intuition.
+Qed.
+
+Definition key_from (parse : string -> list string) (cv : string * string) (k : dkey) : Prop :=
+  In (fst k) (parse (snd cv)) /\ snd k = parsed_context (fst cv).
+
+Lemma fold_bump_keys : forall ctx ds m x,
+  In x (map fst (fold_left (fun m d => bump (d, ctx) m) ds m)) <->
+  (exists d, In d ds /\ x = (d, ctx)) \/ In x (map fst m).
+Proof.
+  intros ctx ds. induction ds as [|d ds IH]; intros m x; simpl.
+  - split; [auto | intros [[d [[] _]] | H]; exact H].
+  - rewrite IH, bump_keys. split.
+    + intros [[d' [H1 H2]] | [H | H]]; eauto.
+    + intros [[d' [[H1 | H1] H2]] | H]; subst; eauto.
+Qed.
+
+Lemma count_snippet_keys : forall parse cv m x,
+  In x (map fst (count_snippet parse m cv)) <-> key_from parse cv x \/ In x (map fst m).
+Proof.
+  intros parse cv m x. unfold count_snippet. rewrite fold_bump_keys. unfold key_from.
+  split.
+  - intros [[d [H1 ->]] | H]; simpl; auto.
+  - intros [[H1 H2] | H]; auto. left. exists (fst x). split; [exact H1|].
+    destruct x; simpl in *; subst; reflexivity.
+Qed.
+
+Lemma fold_snippets_keys : forall parse snippets m x,
+  In x (map fst (fold_left (count_snippet parse) snippets m)) <->
+  (exists cv, In cv snippets /\ key_from parse cv x) \/ In x (map fst m).
+Proof.
+  intros parse snippets. induction snippets as [|cv l IH]; intros m x; simpl.
+  - split; [auto | intros [[cv [[] _]] | H]; exact H].
+  - rewrite IH, count_snippet_keys. split.
+    + intros [[cv' [H1 H2]] | [H | H]]; eauto.
+    + intros [[cv' [[H1 | H1] H2]] | H]; subst; eauto.
+Qed.
+
+(* the key comes from a snippet of a (non-nil) SnippetsFilter of the graph *)
+Definition reported_from (parse : string -> list string) (sfs : list sfilter) (k : dkey) : Prop :=
+  exists snippets cv, In (Some snippets) sfs /\ In cv snippets /\ key_from parse cv k.
+
+Lemma fold_filters_keys : forall parse sfs m x,
+  In x (map fst (fold_left (count_filter parse) sfs m)) <-> reported_from parse sfs x \/ In x (map fst m).
+Proof.
+  intros parse sfs. unfold reported_from. induction sfs as [|sf l IH]; intros m x; simpl.
+  - split; [auto | intros [(s & cv & [] & _) | H]; exact H].
+  - rewrite IH. destruct sf as [snippets|]; simpl.
+    + rewrite fold_snippets_keys. split.
+      * intros [(s & cv & H1 & H2 & H3) | [(cv & H1 & H2) | H]]; eauto 8.
+      * intros [(s & cv & [H1 | H1] & H2 & H3) | H]; eauto 8.
+        inversion H1; subst. eauto 8.
+    + split.
+      * intros [(s & cv & H1 & H2 & H3) | H]; eauto 8.
+      * intros [(s & cv & [H1 | H1] & H2 & H3) | H]; eauto 8. discriminate.
+Qed.
+
+Lemma insert_entry_In : forall e l x, In x (insert_entry e l) <-> x = e \/ In x l.
+Proof.
+  intros e l x. induction l as [|y l IH]; simpl.
+  - intuition.
+  - destruct (entry_lt y e); simpl; [rewrite IH|]; intuition.
+Qed.
+
+Lemma sort_entries_In : forall l x, In x (sort_entries l) <-> In x l.
+Proof.
+  induction l as [|e l IH]; intros x; simpl; [tauto|]. rewrite insert_entry_In, IH. intuition.
+Qed.
+
+(* the reported strings are exactly the keys "directive-context" that come from the graph's snippets *)
+Lemma collect_directives_exact : forall parse sfs e,
+  In e (fst (collect_directives parse sfs)) <->
+  exists k, reported_from parse sfs k /\ e = (fst k ++ "-" ++ snd k)%string.
+Proof.
+  intros parse sfs e. unfold collect_directives. cbn [fst]. rewrite in_map_iff. split.
+  - intros [[k n] [H1 H2]]. rewrite sort_entries_In in H2.
+    exists k. split; [|symmetry; exact H1].
+    assert (H : In k (map fst (fold_left (count_filter parse) sfs []))) by (apply in_map_iff; exists (k, n); split; [reflexivity | exact H2]).
+    apply fold_filters_keys in H. destruct H as [H | []]. exact H.
+  - intros [k [H1 ->]].
+    assert (H : In k (map fst (fold_left (count_filter parse) sfs []))) by (apply fold_filters_keys; auto).
+    apply in_map_iff in H. destruct H as [[k' n] [H2 H3]]. simpl in H2. subst k'.
+    exists (k, n). split; [reflexivity | rewrite sort_entries_In; exact H3].
+Qed.
+
+Lemma collect_lengths : forall parse sfs,
+  length (fst (collect_directives parse sfs)) = length (snd (collect_directives parse sfs)).
+Proof. intros. unfold collect_directives; simpl. rewrite !map_length. reflexivity. Qed.
+
+Lemma parsed_context_label : forall ctx, parsed_context ctx = ctx_label ctx.
+Proof. reflexivity. Qed.
+
+(* what a report of the (repaired) collector may contain: only "<name>-<context>" for a directive name of a snippet
+   of that context *)
+Lemma report_names_only : forall sfs e,
+  In e (fst (collect_directives parse_directives sfs)) ->
+  exists snippets ctx value name,
+    In (Some snippets) sfs /\ In (ctx, value) snippets /\ In name (directive_names value) /\
+    e = (name ++ "-" ++ ctx_label ctx)%string.
+Proof.
+  intros sfs e H. apply collect_directives_exact in H.
+  destruct H as [[d lab] [(snippets & [ctx value] & H1 & H2 & H3 & H4) ->]]. simpl in *.
+  exists snippets, ctx, value, d. repeat split; auto.
+  - apply parse_directives_sound in H3. tauto.
+  - subst lab. reflexivity.
+Qed.
+
+(* and every non-empty directive name of every snippet is reported (nothing is silently dropped) *)
+Lemma report_complete : forall sfs snippets ctx value name,
+  In (Some snippets) sfs -> In (ctx, value) snippets -> In name (directive_names value) -> name <> "" ->
+  In (name ++ "-" ++ ctx_label ctx)%string (fst (collect_directives parse_directives sfs)).
+Proof.
+  intros sfs snippets ctx value name H1 H2 H3 H4. apply collect_directives_exact.
+  exists (name, parsed_context ctx). split; [|reflexivity].
+  exists snippets, (ctx, value). repeat split; auto. simpl.
+  rewrite parse_directives_exact. apply filter_In. split; [exact H3|].
+  unfold nonempty. destruct (name =? "") eqn:E; [apply String.eqb_eq in E; contradiction | reflexivity].
+Qed.
+
+(* ------------------------------------------------------------------ collectGraphResourceCount *)
+
+Local Open Scope Z_scope.
+
+Lemma count_if_cons : forall {A} (p : A -> bool) x l,
+  count_if p (x :: l) = (if p x then 1 else 0) + count_if p l.
+Proof. intros. unfold count_if. simpl. destruct (p x); simpl length; lia. Qed.
+
+Lemma count_if_nil : forall {A} (p : A -> bool), count_if p [] = 0.
+Proof. reflexivity. Qed.
+
+Lemma routes_fold : forall l a b,
+  fold_left route_step l (a, b) =
+  (a + count_if (fun rt => rt =? "http")%string l, b + count_if (fun rt => rt =? "grpc")%string l).
+Proof.
+  induction l as [|rt l IH]; intros a b; simpl.
+  - rewrite !count_if_nil. f_equal; lia.
+  - unfold route_step at 2. simpl. rewrite IH, !count_if_cons.
+    destruct (rt =? "http")%string, (rt =? "grpc")%string; f_equal; lia.
+Qed.
+
+Lemma endpoints_fold : forall l n,
+  fold_left endpoint_step l n = n + zsum (map snd (filter (fun u => negb (fst u)) l)).
+Proof.
+  induction l as [|[e k] l IH]; intros n; simpl.
+  - unfold zsum; simpl. lia.
+  - rewrite IH. unfold endpoint_step; simpl. destruct e; simpl; [reflexivity|].
+    unfold zsum. simpl list_sum. lia.
+Qed.
+
+Lemma policies_fold : forall l p,
+  fold_left policy_step l p =
+  mkP (p_gw_csp p + count_if is_csp_attached_to_gateway l)
+      (p_route_csp p + count_if is_csp_attached_to_route l)
+      (p_obs p + count_if (fun kp => fst kp =? "ObservabilityPolicy")%string l)
+      (p_usp p + count_if (fun kp => fst kp =? "UpstreamSettingsPolicy")%string l).
+Proof.
+  induction l as [|[kind targets] l IH]; intros [a b c d]; simpl.
+  - rewrite !count_if_nil. f_equal; lia.
+  - rewrite IH, !count_if_cons. unfold is_csp_attached_to_gateway, is_csp_attached_to_route; simpl.
+    destruct (kind =? "ClientSettingsPolicy")%string eqn:E1.
+    + apply String.eqb_eq in E1. subst kind. simpl.
+      destruct targets as [|t ts]; simpl; [f_equal; lia|].
+      destruct (t =? "Gateway")%string; simpl; f_equal; lia.
+    + destruct (kind =? "ObservabilityPolicy")%string eqn:E2.
+      * apply String.eqb_eq in E2. subst kind. simpl. f_equal; lia.
+      * destruct (kind =? "UpstreamSettingsPolicy")%string eqn:E3; simpl; f_equal; lia.
+Qed.
+
+Lemma resource_counts_spec : forall g, resource_counts g = spec_counts g.
+Proof.
+  intros g. unfold resource_counts, spec_counts, zlen, b2z.
+  rewrite routes_fold, policies_fold, endpoints_fold. simpl.
+  repeat f_equal; try lia.
+  - destruct (g_has_class g); lia.
+  - destruct (g_has_gw g); lia.
+Qed.
+
+Local Close Scope Z_scope.
+
+(* ------------------------------------------------------------------ parseFlags *)
+
+(* pflag: a flag whose Value.Type() is "bool" prints as strconv.FormatBool *)
+Definition flag_wf (f : flagd) : Prop := f_bool f = true -> f_value f = "true" \/ f_value f = "false".
+
+Definition reduced_words := ["true"; "false"; "default"; "user-defined"].
+
+Lemma flag_value_reduced : forall f, flag_wf f -> reduced f (flag_value f) = true.
+Proof.
+  intros f W. unfold reduced, flag_value. destruct (f_bool f) eqn:B.
+  - rewrite String.eqb_refl. simpl. destruct (W eq_refl) as [-> | ->]; reflexivity.
+  - destruct (f_value f =? f_def f)%string; reflexivity.
+Qed.
+
+Lemma reduced_in_words : forall f v, reduced f v = true -> In v reduced_words.
+Proof.
+  intros f v. unfold reduced, reduced_words. destruct (f_bool f).
+  - rewrite andb_true_iff. intros [_ H]. unfold mem_str in H. simpl in H.
+    rewrite !orb_true_iff in H. destruct H as [H | [H | H]]; try discriminate;
+      apply String.eqb_eq in H; subst; simpl; auto.
+  - rewrite orb_true_iff, !andb_true_iff. intros [[H _] | [H _]]; apply String.eqb_eq in H; subst; simpl; auto.
+Qed.
+
+(* a non-boolean flag's report is one of two words and depends on the value only through "equals the default" *)
+Lemma nonbool_reveals_only_defaultness : forall f1 f2,
+  f_bool f1 = false -> f_bool f2 = false ->
+  (f_value f1 =? f_def f1)%string = (f_value f2 =? f_def f2)%string ->
+  flag_value f1 = flag_value f2.
+Proof. intros f1 f2 B1 B2 E. unfold flag_value. rewrite B1, B2, E. reflexivity. Qed.
+
+Lemma parse_flags_reduced : forall fs, Forall flag_wf fs ->
+  fst (parse_flags fs) = map f_name fs /\
+  length (snd (parse_flags fs)) = length fs /\
+  Forall2 (fun f v => reduced f v = true /\ In v reduced_words) fs (snd (parse_flags fs)).
+Proof.
+  intros fs W. unfold parse_flags; simpl. split; [reflexivity|]. split; [apply map_length|].
+  induction W as [|f fs Wf W IH]; simpl; constructor; auto.
+  split; [apply flag_value_reduced; exact Wf | eapply reduced_in_words, flag_value_reduced; exact Wf].
+Qed.
+
+(* ------------------------------------------------------------------ D22: the parser as found leaks *)
+
+Definition nl := String "010" "".
+Definition tab := String "009" "".
+
+(* quoted ';' — tab / newline between tokens — comment — block body *)
+Definition d22_witnesses : list (string * string) :=
+  [ ("add_header X-Note ""a;secret b"";", "secret");
+    ("proxy_set_header" ++ tab ++ "Host" ++ nl ++ "internal.example.com;",
+     "proxy_set_header" ++ tab ++ "Host" ++ nl ++ "internal.example.com");
+    ("# token=hunter2; see wiki" ++ nl ++ "aio on;", "see");
+    ("map $host $backend {" ++ nl ++ "  public.example.com 1;" ++ nl ++ "  internal.corp.example 2;" ++ nl ++ "}",
+     "internal.corp.example") ]%string.
+
+Definition leaks (parse : string -> list string) (sw : string * string) : bool :=
+  mem_str (snd sw) (parse (fst sw)) && negb (mem_str (snd sw) (directive_names (fst sw))).
+
+Lemma mem_str_In : forall x l, mem_str x l = true <-> In x l.
+Proof.
+  intros x l. unfold mem_str. rewrite existsb_exists. split.
+  - intros [y [H1 H2]]. apply String.eqb_eq in H2. subst. exact H1.
+  - intros H. exists x. split; [exact H | apply String.eqb_refl].
+Qed.
+
+Lemma d22_leaks : forallb (leaks parse_old) d22_witnesses = true.
+Proof. vm_compute. reflexivity. Qed.
+
+Lemma d22_repaired : forallb (fun sw => negb (leaks parse_directives sw)) d22_witnesses = true.
+Proof. vm_compute. reflexivity. Qed.
+
+Lemma d22_refuted : Forall (fun sw => In (snd sw) (parse_old (fst sw)) /\ ~ In (snd sw) (directive_names (fst sw)))
+                           d22_witnesses.
+Proof.
+  apply Forall_forall. intros sw H.
+  pose proof d22_leaks as L. rewrite forallb_forall in L. specialize (L sw H).
+  unfold leaks in L. apply andb_true_iff in L. destruct L as [L1 L2].
+  split; [apply mem_str_In; exact L1|].
+  intros C. apply mem_str_In in C. rewrite C in L2. discriminate.
+Qed.
+
+(* the same at the level of the report: a graph with one SnippetsFilter *)
+Lemma d22_report_refuted :
+  exists sfs e, In e (fst (collect_directives parse_old sfs)) /\ disclosed_ok sfs e = false.
+Proof.
+  exists [Some [("http", "add_header X-Note ""a;secret b"";")]]%string, "secret-http"%string.
+  split; vm_compute; auto.
+Qed.
